@@ -7,6 +7,11 @@
 //@ props: C14
 //@ expect: postcondition>=3 canary=3
 #include "_unit.h"
+/* ctl_process is self-recursive: enforce-rec proves the contract assuming it for the inner call (partial correctness; the
+ * depth is at most num_clients + 1 since every level removes a session before it recurses and accepts only at its end).
+ * Its for-loop cannot carry a loop contract (goto-instrument crashes on loop contract + recursion); it is unwound before
+ * the instrumentation: i < num_clients <= MAX_CLIENTS == 2 holds after every callee (CTL_INV), so it runs at most two
+ * times -- bound 3 with unwinding assertion, complete. */
 void harness(void)
 {
     xv_ghost_havoc();
